@@ -22,7 +22,7 @@ GenNext ==
     \/ \E x \in atRep : /\ Rec1(Answer(x), St("answer", 0, "", x.call))
                           /\ stale' = IF x.cid \notin srvLive /\ (\E k \in 1..ncalls : calls[k].status = "waiting") THEN stale + 1 ELSE stale
     \/ \E k \in 1..ncalls : Rec1(Timeout(k), St("timeout", 0, "", k)) /\ Same
-    \/ Rec1(Cut, St("cut", 0, "", 0)) /\ Same
+    \/ \E f \in Families : Rec1(Cut(f), St("cut", f, "", 0)) /\ Same
 GenSpec == GenInit /\ [][GenNext]_gvars
 Terminal == Len(sched) = MaxSteps
 \* the last element is not a step: it carries the coverage tag for the selection of schedules
